@@ -13,7 +13,7 @@ EXTENDS Emit
 
 R == IF Thorough THEN 1..4 ELSE 1..3
 Trk == <<<<TRUE, TRUE, TRUE>>, <<TRUE, TRUE, FALSE>>, <<TRUE, FALSE, FALSE>>, <<FALSE, TRUE, FALSE>>, <<FALSE, FALSE, TRUE>>>>
-D0 == SetToSeq((R \X R \X R) \cup {<<5, 4, 6>>, <<1, 7, 5>>, <<6, 1, 1>>, <<9, 2, 2>>, <<17, 3, 1>>, <<2, 9, 1>>})
+D0 == SetToSeq((R \X R \X R) \cup {<<5, 4, 6>>, <<1, 7, 5>>, <<6, 1, 1>>, <<9, 2, 2>>, <<17, 3, 1>>, <<2, 9, 1>>, <<2, 3, 65>>, <<1, 70, 1>>, <<3, 2, 100>>})      \* the last three: more than 64 outputs / features (the products behind the gradients have an inner dimension beyond 64)
 Descs == MyCases(Flatten2([i \in DOMAIN D0 |-> [t \in DOMAIN Trk |-> <<"ok", D0[i][1], D0[i][2], D0[i][3], Trk[t]>>]])
                  \o << <<"two", 2, 1>>, <<"two", 1, 2>>, <<"two", 3, 2>> >>
                  \o << <<"bad", <<2>>, <<2>>, <<3>>>>, <<"bad", <<2>>, <<2>>, <<2, 2, 2>>>>, <<"bad", <<2>>, <<2>>, <<>>>> >>)
